@@ -196,6 +196,24 @@ def outEdges (es : Array (SEdge α)) (o : Out) : Array (SEdge α) :=
 
 end Full
 
+/-! ### The node table (`split_disjoint_nodes` + `_reorder_nodes`)
+
+    flags[split_nodes] |= NODE_SPLIT_BY_PREPROCESS          # on the *input* rows
+    node_table.set_columns(flags=flags[order], time=time[order], population=…[order], individual=…[order], …)
+-/
+
+/-- `col[order]` (numpy fancy indexing). -/
+def reorderCol {β : Type} [Inhabited β] (col : Array β) (order : List Nat) : List β :=
+  order.map (fun i => aget col i)
+
+/-- `flags[split_nodes] |= bit`. -/
+def markSplit (bit : Nat) (flags : Array Nat) (split : List Nat) : Array Nat :=
+  split.foldl (fun f i => aset f i (aget f i ||| bit)) flags
+
+/-- The flags column of the returned node table. -/
+def outFlags (bit : Nat) (flags : Array Nat) (o : Out) : List Nat :=
+  reorderCol (markSplit bit flags o.split) o.order
+
 /-! ### `_relabel_mutations_node` -/
 
 /-- An edge as seen by the sweep when it is inserted: left coordinate and the *new* child/parent. -/
